@@ -369,13 +369,28 @@ Definition vc_read (s : sess) (c : nat) (n : Z) : sess * res :=
   | [] => (s, if vc_closed v then REof else RTimeout)
   end.
 
+(* ---- who owns the bytes of a queued message ----
+   agentConnection.Write(b) and the Fn closure of a datagram pseudo-connection build the
+   message with  payload := make([]byte, len(b)); copy(payload, b)  and hand it to the
+   session's sender goroutine over [out].  The sender marshals it LATER (conn2.send writes
+   the type byte to the transport first, then calls MarshalBinary), when Write has long
+   returned and the caller owns b again.  [pay] is what a queued message holds. *)
+Inductive pay := PVal (b : bytes) | PRef (i : nat).        (* own copy | the caller's buffer i *)
+Definition capture (heap : list bytes) (i : nat) : pay := PVal (nth i heap []).   (* make + copy *)
+Definition resolve (heap : list bytes) (p : pay) : bytes :=     (* MarshalBinary, when the sender runs *)
+  match p with PVal b => b | PRef i => nth i heap [] end.
+
+(* the payload the agent gets for Write(b) with b = p when the caller refills b with q as
+   soon as Write has returned, i.e. before the sender has marshalled the message *)
+Definition write_then_refill (p q : bytes) : bytes := resolve [q] (capture [p] 0).
+
 Inductive act :=
 | ASend (m : msg)                       (* the agent sends m *)
 | ARead (c : nat) (n : Z)               (* service on connection c: Read(n bytes), deadline *)
 | APark (c : nat) (n : Z) (m : msg)     (* Read(n) is waiting on c when the agent sends m *)
-| AWrite (c : nat) (p : bytes)          (* service writes p on connection c *)
+| AWrite (c : nat) (p q : bytes)        (* service writes p on connection c from a buffer it refills with q right after *)
 | AClose (c : nat)                      (* service closes connection c *)
-| AUdpW (l r : addr) (p : bytes)        (* service answers on a datagram pseudo-connection *)
+| AUdpW (l r : addr) (p q : bytes)      (* service answers p on a datagram pseudo-connection, then refills the buffer with q *)
 | ADisc.                                (* the agent disconnects *)
 
 Section Run.
@@ -410,17 +425,17 @@ Definition step (s : sess) (a : act) : sess * res * list msg :=
         let '(s1, r) := vc_read s c n in
         let '(s', _, fs, _) := recv_msg s1 m in (s', r, flat_map wire_out fs)
       end
-  | AWrite c p =>
+  | AWrite c p q =>
       let v := conn_at s c in
-      if s_alive s then (s, RNone, wire_out (MData (vc_l v) (vc_r v) p))
+      if s_alive s then (s, RNone, wire_out (MData (vc_l v) (vc_r v) (write_then_refill p q)))
       else (s, RPanic, [])                           (* send on closed channel *)
   | AClose c =>
       let v := conn_at s c in
       if vc_closed v then (s, RNone, [])
       else (mkSess (upd (s_conns s) c (close_vc v)) (s_reg s) (s_alive s) (s_nudp s), RNone,
             if s_alive s then wire_out (MEof (vc_l v) (vc_r v)) else [])
-  | AUdpW l r p =>
-      if s_alive s then (s, RNone, wire_out (MUdp l r p)) else (s, RPanic, [])
+  | AUdpW l r p q =>
+      if s_alive s then (s, RNone, wire_out (MUdp l r (write_then_refill p q))) else (s, RPanic, [])
   | ADisc => ((if s_alive s then teardown s else s), RNone, [])
   end.
 
@@ -482,4 +497,42 @@ Fixpoint accepted (closed : bool) (evs : list cev) : bytes :=
   | ERecv p :: r => if closed then accepted closed r else p ++ accepted closed r
   | EClose :: r => accepted true r
   | EReader _ :: r => accepted closed r
+  end.
+
+(* ------------------------------------------------------------------ *)
+(* The outgoing path with explicit buffer ownership, for every schedule: services write
+   from buffers they own ([o_heap]) and refill them whenever they like once Write has
+   returned; messages wait in [o_q] (taken by / queued for the sender goroutine) until
+   the sender marshals them. *)
+Record ost := mkO { o_heap : list bytes; o_q : list (bool * addr * addr * pay); o_sent : list msg }.
+Inductive oev :=
+| OWrite (l r : addr) (i : nat)      (* agentConnection.Write(heap[i]) on the connection with these addresses *)
+| OUdpW (l r : addr) (i : nat)       (* DummyUDPConn.Write(heap[i]) -> the Fn closure of serv *)
+| OFill (i : nat) (q : bytes)        (* the service refills its buffer i *)
+| OSend.                             (* the sender goroutine marshals and sends the oldest message *)
+
+Definition oframe (heap : list bytes) (x : bool * addr * addr * pay) : msg :=
+  let '(udp, l, r, p) := x in if udp then MUdp l r (resolve heap p) else MData l r (resolve heap p).
+
+Definition ostep (s : ost) (e : oev) : ost :=
+  match e with
+  | OWrite l r i => mkO (o_heap s) (o_q s ++ [(false, l, r, capture (o_heap s) i)]) (o_sent s)
+  | OUdpW l r i => mkO (o_heap s) (o_q s ++ [(true, l, r, capture (o_heap s) i)]) (o_sent s)
+  | OFill i q => mkO (upd (o_heap s) i q) (o_q s) (o_sent s)
+  | OSend => match o_q s with
+             | [] => s
+             | x :: rest => mkO (o_heap s) rest (o_sent s ++ [oframe (o_heap s) x])
+             end
+  end.
+
+Definition orun (s : ost) (evs : list oev) : ost := fold_left ostep evs s.
+
+(* the frames the services meant: the contents of the buffer at the time of each Write *)
+Fixpoint written (heap : list bytes) (evs : list oev) : list msg :=
+  match evs with
+  | [] => []
+  | OWrite l r i :: rest => MData l r (nth i heap []) :: written heap rest
+  | OUdpW l r i :: rest => MUdp l r (nth i heap []) :: written heap rest
+  | OFill i q :: rest => written (upd heap i q) rest
+  | OSend :: rest => written heap rest
   end.
